@@ -80,22 +80,25 @@ class Field(object):
         return "%ds" % sz
 
     def size(self,psize=0):
-        # if the field belongs to an instance and was unpacked already,
-        # we return the actual byte-length of the resulting struct:
-        try:
-            return len(self.instance[self.name])
-        except Exception:
-            pass
-        # otherwise we return the natural size of the field's type,
+        # the natural size of the field's type (for the given pointer size),
         # which may be infinite if the type contains a VarField...
         try:
             sz =  self.type.size(psize)
         except AttributeError:
-            return float("Infinity")
-        else:
+            sz = float("Infinity")
+        if sz < float("Infinity"):
             if self.count > 0:
                 sz = sz * self.count
             return sz
+        # ...in which case, if the field belongs to an instance and was
+        # unpacked already, we return the actual byte-length of the result:
+        try:
+            v = self.instance[self.name]
+            if self.count > 0:
+                return sum((len(x) for x in v),0)
+            return len(v)
+        except Exception:
+            return float("Infinity")
 
     @property
     def source(self):
@@ -145,14 +148,14 @@ class Field(object):
             # but it can be a python raw type in case self is a typedef.
             # Thus, we need to declare a 'sizeof' operator to correctly compute
             # the size of each unpacked blob:
-            if isinstance(blob,(bytes,StructCore)):
+            sz = self.type.size(psize)
+            if sz<float('Infinity'):
+                # fixed-size elements (for the given pointer size)
+                sizeof = lambda b: sz
+            elif isinstance(blob,(bytes,StructCore)):
                 sizeof = lambda b: len(b)
             else:
-                sz = self.type.size(psize)
-                if sz<float('Infinity'):
-                    sizeof = lambda b: sz
-                else:
-                    sizeof = lambda b: sum((x.size(psize) for x in b),0)
+                sizeof = lambda b: sum((x.size(psize) for x in b),0)
             # now lets unpack the rest of the series:
             sz = sizeof(blob)
             count = self.count
